@@ -89,7 +89,7 @@ CLAIMED = {
          "the footer field parsers remove_designation, parse_hms, parse_tz_string_offset(_extended), parse_tz_string_rule - every "
          "expect(BUG_MSG) in them is a discharged obligation. NOT covered: Header::parse (slice patterns), the body of from_tzif "
          "(chunks_exact/zip, from_be_bytes conversions) and from_tz_string (str functions).",
-    note=TB + "lookups are proved for timestamps whose UTC year is within +-5_879_500; that from_tzif calls validate on every Ok path is by reading its last statements (the function is outside Verus); parse_int is assumed not to panic (its input is cut from a checked UTF-8 string at ASCII bytes); 64-bit usize; Offset::resolve's fallback is outside (cfg(unix), fs).", ref="5 C19"),
+    note=TB + "lookups are proved for timestamps whose UTC year is within +-5_879_500; that from_tzif returns only validated data is a syntactic check of its source text on every run (single Ok exit `x.validate()?; Ok(x)`), not a proof; parse_int is assumed not to panic (its input is cut from a checked UTF-8 string at ASCII bytes); 64-bit usize; Offset::resolve's fallback is outside (cfg(unix), fs).", ref="5 C19"),
  'C11': dict(
     category='other', engine='kani',
     technique='per-row loop-free Kani/CBMC harnesses over full-domain symbolic values on the real format_date_part / format_time_part, renderers and calendar getters replaced by recording stubs (-Z stubbing)',
